@@ -47,6 +47,9 @@ const (
 	RegimeV2 Regime = "v2"
 	// RegimeS (syncer scenarios): v2 allowed from 2, required from 8, final cut at 10
 	RegimeS Regime = "s"
+	// RegimeH: v2 allowed from 2, required from 1000, and a proof-of-work target that a random id meets with
+	// probability 1/4096 - so that a block id derived from the wrong state fails the work check, as on a real network
+	RegimeH Regime = "h"
 )
 
 // SC is shorthand for whole siacoins.
@@ -80,6 +83,9 @@ func Network(reg Regime) (*consensus.Network, types.Block) {
 		n.HardforkV2.AllowHeight, n.HardforkV2.RequireHeight, n.HardforkV2.FinalCutHeight = 1, 1, 1
 	case RegimeS:
 		n.HardforkV2.AllowHeight, n.HardforkV2.RequireHeight, n.HardforkV2.FinalCutHeight = 2, 8, 10
+	case RegimeH:
+		n.HardforkV2.AllowHeight, n.HardforkV2.RequireHeight, n.HardforkV2.FinalCutHeight = 2, 1000, 1100
+		n.InitialTarget = types.BlockID{0x00, 0x10}
 	}
 	n.HardforkV2.EphemeralOutputHeight = n.HardforkV2.AllowHeight
 	txn := types.Transaction{}
